@@ -1174,6 +1174,23 @@ func r01_7(c *Ctx) {
 		eofOK := guardedByBool(it, x.tailYield.Block(), isEOFCmp, true)
 		c.check(dirtyOK && eofOK && instrDominates(x.perr, x.tailYield), fnLabel(it)+":eof-flush", P.ipos(x.tailYield),
 			"the pending event is flushed only when dirty and the parser reports io.EOF (clean end)", "the pending event is flushed without (dirty && err == io.EOF): a cut-off event is dispatched, or an empty one")
+		// ... and always then: no further condition stands between (dirty && EOF) and the flush
+		if dirtyOK && eofOK && x.tailYield.Parent() == it {
+			skipped := false
+			nEdges := 0
+			for _, g := range edgesWhereAll(it, factBool(func(v ssa.Value) bool { return v == x.dirtyHead }, true), factBool(isEOFCmp, true)) {
+				nEdges++
+				for _, ret := range returnsOf(it) {
+					if reachesAvoiding(atEdge(g.From, g.Idx), ret, func(in ssa.Instruction) bool { return in == ssa.Instruction(x.tailYield) }, nil) {
+						skipped = true
+					}
+				}
+			}
+			if nEdges > 0 {
+				c.check(!skipped, fnLabel(it)+":eof-flush-always", P.ipos(x.tailYield), "a dirty event is always flushed at a clean end of stream",
+					"a further condition stands between (dirty && err == io.EOF) and the flush: a pending event that lacks what it asks for (data, a type) is dropped at a clean end of stream, although an id-only or retry-only event is dispatched everywhere else; the client's last event ID then stays behind")
+			}
+		}
 	}
 	n := 0
 	eachInstrDeep(it, func(in ssa.Instruction) {
